@@ -85,8 +85,9 @@ type hsCase struct {
 	ServerName  string `json:"server_name"`
 	Offset      int    `json:"clock_offset_s"`
 	// UseAbsClock: the client's clock reads exactly AbsClock (Unix seconds) instead of now+Offset
-	UseAbsClock bool  `json:"use_abs_clock,omitempty"`
-	AbsClock    int64 `json:"abs_clock,omitempty"`
+	UIDClass    string `json:"uid_class,omitempty"` // "", zeros, ones, trailing-zeros, leading-zeros
+	UseAbsClock bool   `json:"use_abs_clock,omitempty"`
+	AbsClock    int64  `json:"abs_clock,omitempty"`
 }
 
 func methodByte(m string) byte {
@@ -129,8 +130,29 @@ func (r *e2eRig) clientCfgFor(cs hsCase, uid []byte) (client.RemoteConnConfig, c
 
 // hsAgree runs one complete connection: handshake, then one stream carrying a ping to the proxy
 // behind the configured method and the answer back. Returns "" or what disagreed.
+func uidOfClass(class string) []byte {
+	u := uidOf(0)
+	switch class {
+	case "zeros":
+		u = make([]byte, 16)
+	case "ones":
+		for i := range u {
+			u[i] = 0xff
+		}
+	case "trailing-zeros":
+		for i := 8; i < 16; i++ {
+			u[i] = 0
+		}
+	case "leading-zeros":
+		for i := 0; i < 8; i++ {
+			u[i] = 0
+		}
+	}
+	return u
+}
+
 func hsAgree(cs hsCase) string {
-	uid := uidOf(0)
+	uid := uidOfClass(cs.UIDClass)
 	r := newE2ERig(newMemManager(), [][]byte{uid}, nil)
 	r.sta.ProxyBook = map[string]net.Addr{cs.ProxyMethod: tcpAddr{"proxy:8388"}, "decoy-method": tcpAddr{"decoy:1"}}
 	decoy := r.net.Listen("decoy:1", false)
